@@ -316,10 +316,11 @@ impl RetryStream {
     }
     /// Check all criteria for a retry and account for it.
     fn may_retry(&mut self) -> bool {
+        // The request that just failed was try number `current_try + 1`.
         let tries_left = self
             .settings
             .tries
-            .saturating_sub(self.retry_state.current_try);
+            .saturating_sub(self.retry_state.current_try.saturating_add(1));
 
         self.retry_state.increment(&self.settings);
 
